@@ -369,6 +369,9 @@ func rerootBase(x ssa.Value) (string, bool) {
 	if _, isAlloc := x.(*ssa.Alloc); isAlloc {
 		return "", false
 	}
+	if _, isElem := x.(*ssa.IndexAddr); isElem {
+		return "", false // an element of a slice of struct values: named like its range copy, through the slice
+	}
 	return "<" + typeShort(canonNamed(n)) + ">", true
 }
 
